@@ -590,6 +590,12 @@ class Evaluator:
                 ftext = c.func.id if not isinstance(st.env.get(c.func.id), Sym) else st.env[c.func.id].text
         args = [self.ev(a, st) for a in c.args]
         kwargs = {k.arg: self.ev(k.value, st) for k in c.keywords}
+        if isinstance(c.func, ast.Attribute) and c.func.attr == "__contains__" and len(args) == 1 and not kwargs:
+            # x.__contains__(y) is the membership test `y in x`: one atom for both spellings
+            r0 = self.hooks.on_call(c, ftext, args, kwargs, st)
+            if r0 is not NOTHING:
+                return r0
+            return Sym(st.vkey(f"{vtext(args[0])} In {ftext[: -len('.__contains__')]}"))
         r = self.hooks.on_call(c, ftext, args, kwargs, st)
         if r is not NOTHING:
             return r
